@@ -227,6 +227,42 @@ pub fn completeness(trace: &[String]) -> (bool, String) {
     (true, String::new())
 }
 
+/// Oracle (trace only): an operation's call ends with "reply sender dropped" (`recverr`) only if
+/// the connection ended first or somebody abandoned that very ID.  Anything else - in particular a
+/// response carrying an ID nobody is registered under - must not make another operation fail.
+pub fn undisturbed(trace: &[String]) -> (bool, String) {
+    let mut opq: Vec<String> = vec![];
+    let mut id_of_op: std::collections::HashMap<String, String> = Default::default();
+    let mut abandoned: std::collections::HashSet<String> = Default::default();
+    let mut ended = false;
+    for t in trace {
+        let w: Vec<&str> = t.split(' ').collect();
+        match (w[0], w.get(1).copied().unwrap_or("")) {
+            ("cli", "issue") => opq.push(w[2].to_string()),
+            ("drv", "op") => {
+                if !opq.is_empty() {
+                    let oi = opq.remove(0);
+                    id_of_op.insert(oi, w[2].to_string());
+                }
+                if let Some(k) = w.get(3) {
+                    if let Some(tgt) = k.strip_prefix("abandon:") {
+                        abandoned.insert(tgt.to_string());
+                    }
+                }
+            }
+            ("drv", "end") | ("drv", "result") => ended = true,
+            ("cli", "done") if w[3] == "recverr" => {
+                let id = id_of_op.get(w[2]).cloned().unwrap_or_default();
+                if !ended && !abandoned.contains(&id) {
+                    return (false, format!("operation {} (id {}) failed with a dropped reply sender although the connection is up and nobody abandoned it", w[2], id));
+                }
+            }
+            _ => {}
+        }
+    }
+    (true, String::new())
+}
+
 pub fn run(thorough: bool, mut rng: Rng, mut out: Out) {
     let n = if thorough { 20000 } else { 2500 };
     for k in 0..n {
@@ -279,6 +315,8 @@ pub fn run(thorough: bool, mut rng: Rng, mut out: Out) {
         let (ok2, why2) = completeness(&o.trace);
         out.r(&format!("routing.search-sees-all-its-responses-in-order script#{}", k), ok2, &format!("{} ; trace: {}", why2, ev));
         out.r(&format!("routing.no-hang-after-driver-end script#{}", k), o.watchdog_stuck.is_empty(), &ev);
+        let (ok3, why3) = undisturbed(&o.trace);
+        out.r(&format!("routing.operation-not-disturbed script#{}", k), ok3, &format!("{} ; trace: {}", why3, ev));
     }
     out.finish("random histories of 2..8 concurrent operations (single-result, searches, abandons) from cloned handles on one connection; scripted server answering in arbitrary order, entries of different searches interleaved, unsolicited/unknown/late IDs, optional timeouts and faults; non-trivial = at least 2 operations; distinct by FNV of the event trace");
 }
